@@ -95,6 +95,8 @@ class MultiTapering(Spectrum):
             self.psd = newpsd
         else:
             self.psd = self.Sk
+        if self.scale_by_freq is True:
+            self.scale()
         return self
 
     def __str_title(self):
